@@ -318,12 +318,16 @@ Definition global_declaration_instantiation (P : prog) (self : ops) (body : list
          go t
      end) vnames.
 
+(* the Directive Prologue "use strict" is an ExpressionStatement: it contributes the script's first completion value *)
+Definition script_frames (P : prog) : list frame :=
+  [KSeq (p_body P) (if p_strict P then Some (VStr (S "use strict")) else None)].
+
 Definition run_script (fuel : nat) (P : prog) (st0 : state) : outcome :=
   let self := mk P fuel in
   let c := global_ctx (p_strict P) in
   let m : M value :=
     do _ <- global_declaration_instantiation P self (p_body P) c;;
-    do r <- o_run self [KSeq (p_body P) None] (CNormal None) c;;
+    do r <- o_run self (script_frames P) (CNormal None) c;;
     match r with
     | MDone (CNormal v) => ret (match v with Some x => x | None => VUndef end)
     | MDone (CThrow v) => throwv v
